@@ -60,6 +60,30 @@ def regex_shapes_ok():
     return bool(a), bool(b), bool(c)
 
 
+def decimal_digit_tables():
+    """(DIGIT ZERO code points of the complete runs of ten, stray decimal digits, probe of the live int())"""
+    import unicodedata
+
+    dec = {c: unicodedata.decimal(chr(c)) for c in range(0x110000) if chr(c).isdecimal()}
+    zeros = [c for c, v in sorted(dec.items()) if v == 0 and all(dec.get(c + d) == d for d in range(10))]
+    covered = {z + d for z in zeros for d in range(10)}
+    stray = sorted((c, v) for c, v in dec.items() if c not in covered)
+    ok = True
+    for z in zeros:
+        for d in range(10):
+            ok = ok and int(chr(z + d)) == d
+        ok = ok and int(chr(z + 7) + "_" + chr(z)) == 70
+    for c in range(0x110000):
+        if c in dec:
+            continue
+        try:
+            int(chr(c))
+            ok = False
+        except ValueError:
+            pass
+    return zeros, stray, ok
+
+
 @generator("Cookie")
 def gen_cookie():
     http = importlib.import_module("werkzeug.http")
@@ -86,6 +110,7 @@ def gen_cookie():
     re_spaces = [c for c in range(0x110000) if __import__("re").fullmatch(r"\s", chr(c), __import__("re").ASCII)]
     path_safe = dump_cookie_path_safe()
     shape_a, shape_b, shape_c = regex_shapes_ok()
+    dec_zeros, dec_stray, dec_probe = decimal_digit_tables()
     body = f"""namespace Wz.Gen.Cookie
 
 /-- the `safe=` literal of `quote(path, safe=...)` in `dump_cookie` (collected from the AST) -/
@@ -127,6 +152,18 @@ def pySpaces : List Nat := {lean_list([str(c) for c in spaces])}
 
 /-- code points matched by `\\s` under `re.ASCII`. -/
 def reSpaces : List Nat := {lean_list([str(c) for c in re_spaces])}
+
+/-- code points of every DIGIT ZERO `z` such that `z .. z+9` are decimal digits of values 0..9
+(`str.isdecimal`, `unicodedata.decimal`): the characters `int()` reads as digits. -/
+def decimalZeros : List Nat := {lean_list([str(z) for z in dec_zeros])}
+
+/-- decimal digits outside those runs: (code point, value). The model of `int()` assumes none. -/
+def decimalStray : List (Nat × Nat) := {lean_list(["(" + str(c) + ", " + str(v) + ")" for c, v in dec_stray])}
+
+/-- probe of the live `int`: `int(chr(z+d)) == d` for every run and d = 0..9,
+`int(chr(z+7) + "_" + chr(z)) == 70`, and `int(c)` raises ValueError for every single character `c`
+that is not a decimal digit (all 0x110000 code points, incl. `str.isdigit` characters such as '²'). -/
+def decimalIntProbe : Bool := {lean_bool(dec_probe)}
 
 end Wz.Gen.Cookie
 """
